@@ -13,7 +13,7 @@ import (
 func init() {
 	Registry["C15"] = RuleDef{Module: ".", Run: runC15,
 		Technique:   "bounds prover (guards, induction, parity/half-range lemmas, pure-accessor congruence) over every index/slice expression; panic-source and delegator-sibling rules on go/ssa",
-		Explanation: "Decides for every exported accessor of RedisMessage, RedisResult and RedisError, DecodeSliceOfJSON and every module function they reach (R15a) that each index and slice expression is within bounds on every path, proved from the guards that dominate it (length tests on the reply, loop bounds, parity and half-range idioms, make lengths); (R15b) that no panic call, no unchecked type assertion on a non-pool value, and no division by a non-constant is reachable; (R15c) that every RedisResult delegator has the sibling shape `r.err != nil => return it, else delegate to the same-named RedisMessage method`, and that the verified-pure accessors values()/string() really have no side effects.",
+		Explanation: "Decides for every exported accessor of RedisMessage, RedisResult and RedisError, DecodeSliceOfJSON and every module function they reach (R15a) that each index and slice expression is within bounds on every path, proved from the guards that dominate it (length tests on the reply, loop bounds, parity and half-range idioms, make lengths); (R15b) that no panic call, no unchecked type assertion on a non-pool value, and no division by a non-constant is reachable; (R15c) that every RedisResult delegator has the sibling shape `r.err != nil => return it, else delegate to the same-named RedisMessage method`, and that the verified-pure accessors values()/string() really have no side effects. (R15d) ToString, the conversion underneath the whole string family, succeeds only after a positive string-type test or when the message has no child array, so no aggregate kind (array, set, map, push, attribute) is silently converted to an empty string.",
 		NotDecided:  "panics inside encoding/json, strconv and other standard-library callees; that a wrong-shape reply yields specifically a parse error (only index safety and the delegation shape are decided); unsafe.Slice/String lengths (they come from intlen, which only the decoder and the setters write)."}
 }
 
@@ -118,6 +118,7 @@ func runC15(r *Report) {
 	r.Extra["index_sites_proved"] = proved
 	r.Min("R15a", 150)
 
+	scalarRejectsAggregates(r)
 	// R15b other panic sources
 	for _, fn := range closure {
 		for _, b := range fn.Blocks {
@@ -232,4 +233,96 @@ func runC15(r *Report) {
 		r.Ob("R15c", fn, "pure-accessor", fn.Pos(), pure, "the prover treats two calls of this accessor on the same receiver as the same slice; it must not write memory or call impure functions")
 	}
 	_ = fmt.Sprint
+}
+
+// scalarRejectsAggregates (R15d): a conversion that hands out the message's byte payload must not
+// succeed on an aggregate. Aggregate replies are exactly those with a child array, whatever their
+// type byte (array, set, map, push, attribute), so every success return of ToString must either
+// follow a positive test for a string type or the representation test `m.array == nil`; a test
+// that enumerates type bytes has to exclude all five aggregate bytes.
+func scalarRejectsAggregates(r *Report) {
+	fn := r.FnAnchor("R15d", "rueidis.(*RedisMessage).ToString")
+	if fn == nil {
+		return
+	}
+	predSet := func(c *ssa.Call) map[int64]bool {
+		callee := c.Call.StaticCallee()
+		if callee == nil || callee.Blocks == nil || len(callee.Params) != 1 {
+			return nil
+		}
+		set := map[int64]bool{}
+		for _, b := range callee.Blocks {
+			for _, in := range b.Instrs {
+				switch x := in.(type) {
+				case *ssa.BinOp:
+					if x.Op == token.EQL && strings.HasSuffix(Desc(x.X), ".typ") {
+						if k, isc := ConstInt(x.Y); isc {
+							set[k] = true
+							continue
+						}
+					}
+					if x.Op != token.EQL {
+						return nil
+					}
+				case ssa.CallInstruction:
+					return nil
+				}
+			}
+		}
+		return set
+	}
+	aggregates := []int64{'*', '~', '%', '>', '|'}
+	n := 0
+	for _, b := range fn.Blocks {
+		ret, ok := b.Instrs[len(b.Instrs)-1].(*ssa.Return)
+		if !ok {
+			continue
+		}
+		rv := RetVals(ret)
+		if len(rv) != 2 {
+			continue
+		}
+		// success-capable: error is nil or the message's own Error()
+		if !IsNilConst(rv[1]) {
+			c, isc := rv[1].(*ssa.Call)
+			if !isc || CalleeName(c) != "rueidis.(*RedisMessage).Error" {
+				continue
+			}
+		}
+		n++
+		positive, noArray := false, false
+		excluded := map[int64]bool{}
+		for _, g := range DomGuards(b) {
+			if c, isc := g.Cond.(*ssa.Call); isc {
+				set := predSet(c)
+				if set == nil {
+					continue
+				}
+				if g.Pol {
+					positive = true
+					for _, a := range aggregates {
+						if set[a] {
+							positive = false
+						}
+					}
+				} else {
+					for k := range set {
+						excluded[k] = true
+					}
+				}
+				continue
+			}
+			if x, op, y, cok := CmpGuard(g); cok && IsNilConst(y) && strings.HasSuffix(Desc(x), ".array") && op == token.EQL {
+				noArray = true
+			}
+		}
+		all := true
+		for _, a := range aggregates {
+			if !excluded[a] {
+				all = false
+			}
+		}
+		r.ObSite("R15d", SiteOf(ret), "payload-conversion-rejects-aggregates", positive || noArray || all, "a string conversion succeeds only for a string type, or when the message has no child array (all five aggregate kinds excluded)")
+	}
+	r.Anchor("R15d", "ToString: success-capable returns (2)", n == 2)
 }
